@@ -108,6 +108,28 @@ func (s *splitFn) containsSearch(fn *ssa.Function, seen map[*ssa.Function]bool) 
 						if len(s.containsSearch(f, seen)) > 0 {
 							out[b] = true
 						}
+					} else if f.Pkg == fn.Pkg && len(f.Blocks) > 0 && !seen[f] {
+						// a plain helper of the package that is handed the data (or one element of it) and searches or
+						// compares it there
+						for i, a := range cc.Args {
+							if i >= len(f.Params) {
+								break
+							}
+							isElem := false
+							if u, ok := a.(*ssa.UnOp); ok && u.Op == token.MUL {
+								if ia, ok := u.X.(*ssa.IndexAddr); ok && s.dataDerived(ia.X, 0) {
+									isElem = true
+								}
+							}
+							if s.dataDerived(a, 0) {
+								sub := &splitFn{fn: f, data: f.Params[i]}
+								if len(sub.containsSearch(f, seen)) > 0 {
+									out[b] = true
+								}
+							} else if isElem && comparesParam(f, f.Params[i]) {
+								out[b] = true
+							}
+						}
 					}
 				} else if !cc.IsInvoke() {
 					// call of a closure value: resolve MakeClosure
@@ -1146,4 +1168,15 @@ func containsConstCmp(fn *ssa.Function, k string, seen map[*ssa.Function]bool) b
 		}
 	}
 	return false
+}
+
+// comparesParam: the function compares the given parameter for (in)equality with something.
+func comparesParam(fn *ssa.Function, prm *ssa.Parameter) bool {
+	found := false
+	allInstrs(fn, func(in ssa.Instruction) {
+		if bo, ok := in.(*ssa.BinOp); ok && (bo.Op == token.EQL || bo.Op == token.NEQ) && (bo.X == ssa.Value(prm) || bo.Y == ssa.Value(prm)) {
+			found = true
+		}
+	})
+	return found
 }
